@@ -84,6 +84,41 @@ def make_members(rng, fam, n, nb, differ):
     return Ks, metas
 
 
+BASELINE_INT_LITERALS = {0, 1, 2}      # integer literals of linear_operator/functions/_pivoted_cholesky.py on the pinned tree
+BIG_SIZES = [12, 17, 33]
+
+
+def scan_source():
+    """Integer literals and modulo / floor-division tests in the module of PivotedCholesky.forward (common.REPO).
+    A literal that is not in the baseline is a candidate for a period / threshold in the loop: the size family is
+    widened beyond it (c + 2, 2 c + 1, 3 c + 1) so that the loop runs past it at least twice."""
+    import ast
+    path = os.path.join(common.REPO, "linear_operator", "functions", "_pivoted_cholesky.py")
+    out = {"file": "linear_operator/functions/_pivoted_cholesky.py", "int_literals": [], "modulo_or_floordiv": 0, "new_literals": [], "extra_sizes": []}
+    try:
+        tree = ast.parse(open(path).read())
+    except Exception as ex:
+        out["error"] = str(ex)[:200]
+        return out
+    lits = set()
+    for node in ast.walk(tree):
+        if isinstance(node, ast.Constant) and isinstance(node.value, int) and not isinstance(node.value, bool):
+            lits.add(node.value)
+        if isinstance(node, (ast.BinOp, ast.AugAssign)) and isinstance(node.op, (ast.Mod, ast.FloorDiv)):
+            out["modulo_or_floordiv"] += 1
+    out["int_literals"] = sorted(lits)
+    new = sorted(c for c in lits if c not in BASELINE_INT_LITERALS)
+    out["new_literals"] = new
+    extra = set()
+    for c in new:
+        if 2 <= c <= 40:
+            extra.update({c + 2, 2 * c + 1, 3 * c + 1})
+    if out["modulo_or_floordiv"] and not extra:
+        extra.update({40, 65})
+    out["extra_sizes"] = sorted(x for x in extra if x <= 130 and x not in BIG_SIZES)
+    return out
+
+
 def prior_tol_for(tol):
     """history on ONE operator object: the tolerance in force during an earlier, otherwise identical call —
     far on the other side of the one the observed call runs under"""
@@ -94,7 +129,7 @@ def pc_grid(ctx):
     rng = random.Random(ctx.seed * 7919 + 17)
     sizes = {"full": [1, 2, 3, 4, 5, 6, 8], "lowrank": [2, 3, 4, 6, 7], "lowrank_mixed": [3, 5], "tied_kernel": [2, 3, 5, 6, 8],
              "persym": [2, 4, 5, 6], "blocksym": [2, 4, 6, 8], "diag": [1, 2, 3, 5, 7], "toeplitz": [2, 3, 5, 6],
-             "scaled": [2, 3, 4, 6]}
+             "scaled": [2, 3, 4, 6], "geometric": [4, 6, 8]}
     if not ctx.quick:
         for f in sizes:
             sizes[f] = sizes[f] + [9, 10, 12]
@@ -145,6 +180,33 @@ def pc_grid(ctx):
                     if bs and cnt % 2 == 0:
                         c["member_scale"] = True       # member b lives on the scale 2^(-7 b): largest diagonal entries differ 128x
                     cases.append(c)
+                    cnt += 1
+    # tolerances below float32 machine epsilon (1.19e-7) supplied through the SETTINGS context (error_tol=None) or
+    # explicitly, on float64 operators (the process default dtype stays float32), on matrices whose relative residual
+    # trace decays geometrically and crosses 1.19e-7 well before full rank
+    for n in ((8, 10, 12) if ctx.quick else (8, 10, 12, 14)):
+        for bs in ((), (2,), (3,)):
+            for t in (1e-8, 1e-10, 1e-6, 3e-8):
+                for via_setting in (True, False):
+                    c = {"kind": "pc", "fam": "geometric", "n": n, "batch": list(bs), "cls": ["Dense", "Sum"][cnt % 2], "rank": n,
+                         "etol": None if via_setting else t, "st_tol": t if via_setting else 1e-3, "vseed": rng.randrange(1 << 30), "subeps": True}
+                    if via_setting and cnt % 3 == 0:
+                        c["prior_tol"] = prior_tol_for(t)
+                    cases.append(c)
+                    cnt += 1
+    # sizes and ranks beyond any small constant of the loop (direct predicates only: exactness, PSD, vanishing rows,
+    # pivot-is-argmax, guard), widened by whatever integer literal the source scan finds new in the module
+    scan = scan_source()
+    for n in BIG_SIZES + scan["extra_sizes"]:
+        for fam in ("full", "toeplitz", "tied_kernel", "scaled", "persym"):
+            for bs in ((), (2,)):
+                if ctx.quick and n > 40 and (bs or fam in ("scaled", "persym")):
+                    continue
+                for rank in sorted({n, max(9, (2 * n) // 3), n + 1}):
+                    use_setting = cnt % 2 == 0
+                    cases.append({"kind": "pc", "fam": fam, "n": n, "batch": list(bs), "cls": "Dense", "rank": rank,
+                                  "etol": None if use_setting else 1e-8, "st_tol": 1e-6 if use_setting else 1e-3,
+                                  "vseed": rng.randrange(1 << 30), "big": True})
                     cnt += 1
     return cases
 
@@ -256,7 +318,7 @@ def pc_fragile(case, Ks, obs, info):
         if m >= case["n"]:
             break
         e = max(G.residual_error(K, obs["L"][b][:, :m], obs["perm"][b].tolist(), m) for b, K in enumerate(Ks))
-        if abs(e - tol) <= 1e-6 * tol:
+        if abs(e - tol) <= 1e-6 * tol + 1e-13:
             return True
     return False
 
@@ -269,9 +331,21 @@ BOUNDARY_KINDS = ["exact_vec", "near_ulp", "near_1e-7", "near_1e-5", "near_1e-3"
 ROUTES = ["AddedDiag(K,D)", "AddedDiag(D,K)", "K+D", "add_diagonal", "add_jitter"]
 
 
+def size_history_for(a, n, cnt):
+    """earlier calls of _preconditioner() on the SAME AddedDiag object under other max_preconditioner_size values
+    before the observed call under `a`: none / (b) / (a, b) / (b, a, b) — i.e. histories a | b,a | a,b,a | b,a,b,a"""
+    if a == 0 or cnt % 2 == 0:
+        return None
+    others = [x for x in (1, 2, 3, n, n - 1) if x != min(a, n) and x >= 1]
+    if not others:
+        return None
+    b = others[(cnt // 2) % len(others)]
+    return [[b], [a, b], [b, a, b]][(cnt // 2) % 3]
+
+
 def pre_grid(ctx):
     rng = random.Random(ctx.seed * 104729 + 5)
-    fams = ["full", "lowrank", "tied_kernel", "scaled", "toeplitz", "blocksym"]
+    fams = ["full", "lowrank", "tied_kernel", "scaled", "toeplitz", "blocksym", "geometric"]
     sizes = [2, 3, 5, 6] if ctx.quick else [2, 3, 4, 5, 6, 8, 10]
     cases = []
     cnt = 0
@@ -299,6 +373,7 @@ def pre_grid(ctx):
                         cases.append({"kind": "pre", "fam": fam, "n": n, "batch": list(bs), "cls": cls, "dkind": dk,
                                       "max_size": mx, "min_size": mn, "tol": tol, "route": route, "twice": cnt % 4 == 1,
                                       "prior_tol": prior_tol_for(tol) if cnt % 3 == 2 else None,
+                                      "size_history": size_history_for(mx, n, cnt),
                                       "vseed": rng.randrange(1 << 30)})
                         cnt += 1
     # decision boundary of the constant-diagonal test (torch.equal: EXACT equality with the first entry, per member,
@@ -314,6 +389,7 @@ def pre_grid(ctx):
                                   "max_size": [1, 2, n, 3, n - 1][cnt % 5], "min_size": 1, "tol": [1e-3, 1e-1, 1e-8][cnt % 3],
                                   "route": ["AddedDiag(K,D)", "K+D", "AddedDiag(D,K)"][cnt % 3], "twice": cnt % 4 == 1,
                                   "prior_tol": None, "k_scale": dk.startswith("tiny") and cnt % 2 == 0,
+                                  "size_history": size_history_for([1, 2, n, 3, n - 1][cnt % 5], n, cnt + 1),
                                   "vseed": rng.randrange(1 << 30)})
                     cnt += 1
     # special cells
@@ -467,6 +543,10 @@ def run_pre(case, Ks, metas, Dspec, Ds):
                 ad = O.AddedDiagLinearOperator(Kop, Dop)
             with settings.max_preconditioner_size(case["max_size"]), settings.min_preconditioning_size(case["min_size"]), \
                     settings.preconditioner_tolerance(case["tol"]):
+                for sz in case.get("size_history") or []:
+                    # history on this object: every cached component must afterwards belong to the size in force
+                    with settings.max_preconditioner_size(sz):
+                        ad._preconditioner()
                 cl, Pop, ld = ad._preconditioner()
                 if case["twice"]:
                     cl, Pop, ld = ad._preconditioner()
@@ -645,7 +725,9 @@ def collect(ctx, direct_only=False):
     a record = (case, Ks, Ds, obs, literal)."""
     stats = {"pc": 0, "pre": 0, "redrawn": 0, "skipped_class": 0, "direct_failures": 0, "ties": 0, "early_stops": 0,
              "members_differ": 0, "raised_ok": 0, "none_ok": 0, "const_branch": 0, "nonconst_branch": 0,
-             "perm": 0, "perm_members": 0, "backward": 0}
+             "perm": 0, "perm_members": 0, "backward": 0, "big_direct": 0, "size_histories": 0}
+    big_sigs = set()
+    stats["_big_sigs"] = big_sigs
     recs = []
     reported = set()
 
@@ -659,6 +741,21 @@ def collect(ctx, direct_only=False):
 
     for case in pc_grid(ctx):
         obs = None
+        if case.get("big"):
+            Ks, metas = materialise_pc(case)
+            obs = run_pc(case, Ks, metas)
+            stats["pc"] += 1
+            fails, info = pc_direct(case, Ks, obs)
+            if fails:
+                what, msg = fails[0]
+                report(case, {"kind": "pivoted-cholesky-property", "case": jsonable(case, Ks), "what": [m for _, m in fails][:4],
+                              "observed": {"r": obs.get("r"), "perm": obs["perm"].tolist() if obs.get("perm") is not None else None, "raised": obs["raised"]}},
+                       pc_key(case, what))
+            else:
+                stats["big_direct"] += 1
+                if not obs["raised"]:
+                    big_sigs.add(("big", case["fam"], case["n"], tuple(case["batch"]), obs["r"], json.dumps(obs["perm"].tolist())))
+            continue
         for attempt in range(6):
             Ks, metas = materialise_pc(case)
             obs = run_pc(case, Ks, metas)
@@ -716,6 +813,7 @@ def collect(ctx, direct_only=False):
         else:
             const = all(len(set(d)) == 1 for d in Ds)
             stats["const_branch" if const else "nonconst_branch"] += 1
+            stats["size_histories"] += 1 if case.get("size_history") else 0
         recs.append((case, Ks, Ds, obs, None if direct_only else pre_case_lit(case, Ks, Ds, obs)))
 
     # linear_operator/utils/permutation.py: one record per batch member
@@ -798,7 +896,8 @@ def run(ctx):
             ctx.violation({"kind": "model-implementation-disagreement", "case": jsonable(case, Ks, Ds),
                            "observed": {k: (v.tolist() if hasattr(v, "tolist") else v) for k, v in obs.items()},
                            "correspondence": "coq/C10/Check.v check_case (model on binary64 vs implementation)"}, no_input=True)
-    distinct = set()
+    big_sigs = stats.pop("_big_sigs", set())
+    distinct = set(big_sigs)
     for case, Ks, Ds, obs, _ in recs:
         if case.get("direct_failed"):
             continue
@@ -838,11 +937,13 @@ def run(ctx):
             "operator row extraction / _approx_diagonal by the dense matrix (re-checked on 11 operator classes by the correspondence)",
             "exact-arithmetic theorems (any real closed field); rounding is covered only by the 1e-9 / 1e-8 comparison tolerances",
             "correspondence harness harness/c10.py, harness/c10_gen.py (generators, operator builders, literal writer, comparators coq/C10/Check.v)"],
-        "evaluations": len(recs) + stats["backward"], "distinct_nontrivial": len(distinct),
+        "source_scan": scan_source(),
+        "evaluations": len(recs) + stats["backward"] + stats["big_direct"], "distinct_nontrivial": len(distinct),
         "rule": "pivoted-Cholesky cases: distinct by (family, n, batch shape, operator class, returned rank, returned permutations), non-trivial = n >= 2 and no exception; "
                 "preconditioner cases: distinct by (family, n, batch shape, class, kind of D, max size, tolerance, construction route), non-trivial = a preconditioner was returned; "
                 "apply_permutation members: distinct by (shape, batch shape, kinds of left/right, source class, how the permutation is batched), non-trivial = at least one side given; "
-                "inverse_permutation: distinct by (n, batch shape), n >= 2; backward-gradient cases are counted in evaluations only",
+                "inverse_permutation: distinct by (n, batch shape), n >= 2; big direct-only cells: distinct by (family, n, batch shape, returned rank, permutations); "
+                "backward-gradient cases are counted in evaluations only",
         "mismatches": len(mism), "mismatches_on_cases_failing_the_direct_predicates": also_direct, "counters": stats,
         "samples": samples,
     })
